@@ -113,6 +113,9 @@ def check(prop, tier, seed):
         for s in uniq:
             sc = {"tid": tid, "mode": "sched", "alive_ids": case["alive"], "free_seq": case["free"],
                   "progs": case["progs"], "schedule": list(s)}
+            if tid % 4 == 1:
+                # exclusive access deletes every k-th entity created in the frame before the merge
+                sc["post"] = rng.choice([1, 2])
             if tid % 3 == 0:
                 # a second frame on the same world: delete some known entities, create again (recycling after a merge)
                 sc["frames"] = [{"progs": [[["delete", rng.randint(1, nknown)], ["create"], ["create"]],
@@ -159,7 +162,8 @@ def check(prop, tier, seed):
                     tag += 1
                     prog.append(["lazy", t * 100000 + tag])
             progs.append(prog)
-        sc = {"tid": tid, "mode": "free", "alive_ids": alive, "free_seq": free, "progs": progs, "schedule": []}
+        sc = {"tid": tid, "mode": "free", "alive_ids": alive, "free_seq": free, "progs": progs, "schedule": [],
+              "post": rng.choice([0, 0, 1, 2, 3])}
         frames = []
         for _ in range(rng.randint(0, 2)):
             fp = []
@@ -179,7 +183,7 @@ def check(prop, tier, seed):
                         tag += 1
                         prog.append(["lazy", 900000 + tag])
                 fp.append(prog)
-            frames.append({"progs": fp, "schedule": []})
+            frames.append({"progs": fp, "schedule": [], "post": rng.choice([0, 0, 1, 3])})
         if frames:
             sc["frames"] = frames
         scripts.append(sc)
